@@ -190,6 +190,8 @@ func main() {
 		{"v1-contract-empty", "v1only", []string{"form1", "prove1"}, 2, 2, []chain.AbsOut{{600000, "B"}}},
 		// three transactions in one block: a payment, a siafund transfer, then a parent named by a foreign id
 		{"v2-confuse", "v2only", []string{"pay", "sf"}, 1, 3, []chain.AbsOut{{1199, "B"}}},
+		// the developer-address override is one more way to spend a siafund output - still only once
+		{"v1-devaddr", "devaddr", []string{"sf"}, 1, 3, nil},
 		// below the ephemeral-output height a siafund output may be spent in the block that creates it - but only once
 		{"v2-legacy-sf", "v2only", []string{"sf"}, 1, 3, []chain.AbsOut{{1199, "B"}}},
 		// three uses of one v2 contract in one block (revise, renew, then anything)
@@ -202,12 +204,17 @@ func main() {
 	}
 	for _, f := range fams {
 		p := chain.Shapes()[f.shape]
-		p.GenSC = f.gen
+		if f.gen != nil {
+			p.GenSC = f.gen
+		}
 		if f.shape == "mixed" {
 			p.AllowH, p.RequireH, p.EphH = 2, 4, 3
 		}
 		if f.name == "v2-legacy-sf" {
 			p.EphH = 100
+		}
+		if f.name == "v1-devaddr" {
+			p.DevH, p.DevLock = 1, 0 // the override is available from the first block
 		}
 		cfg := chain.BaseConfig(p)
 		cfg.Addrs = []string{"B"}
@@ -250,7 +257,7 @@ func main() {
 	}
 	c.Traces(int64(total.Behaviours))
 	c.Count(int64(total.Steps), nontriv)
-	for _, need := range []string{"v2:pay!intx", "v1:pay!intx", "v2:pay!reuse", "v1:pay!reuse", "v2:reuse-gone", "v1:reuse-gone", "v2:sf!reuse", "v2:sf!intx", "v1:confuse", "v2:confuse", "v1:prove1!intx"} {
+	for _, need := range []string{"v2:pay!intx", "v1:pay!intx", "v2:pay!reuse", "v1:pay!reuse", "v2:reuse-gone", "v1:reuse-gone", "v2:sf!reuse", "v2:sf!intx", "v1:confuse", "v2:confuse", "v1:prove1!intx", "v1:sfdev!reuse", "v1:sfdev!intx"} {
 		if cells[need] == 0 {
 			c.Infra("vacuity: second-use cell %s never exercised", need)
 		}
